@@ -35,7 +35,8 @@ func vObserve(q *Queue[int], ref []int, what string) {
 }
 
 func vPeekCheck(q *Queue[int], ref []int, bound int, what string) {
-	k := vRange("k", -bound, bound)
+	k := vInt("k") // any offset at all, including the extreme values of int
+	_ = bound
 	got, ok := q.Peek(k)
 	n := len(ref)
 	want := vAll(k >= -n, k < n)
